@@ -146,16 +146,25 @@ def _add(ex, name, pc, goal, ln, kind):
 
 def _frame_obs(ex, c, s, old, ln):
     """every heap location outside `modifies` is unchanged"""
-    allowed = {}  # key -> list of object terms or '*'
+    allowed = {}  # key -> list of (object term, condition) or '*'
+    star_conds = {}
     for loc in c.modifies:
+        cond = z3.BoolVal(True)
+        if " if " in loc:
+            loc, _, ctext = loc.partition(" if ")
+            loc = loc.strip()
+            cond = ex.spec_eval(ctext, old, None, None)
         if loc.endswith("[*]"):
-            allowed[loc[:-3]] = "*"
+            if z3.is_true(cond):
+                allowed[loc[:-3]] = "*"
+            else:
+                star_conds.setdefault(loc[:-3], []).append(cond)
             continue
         base, _, attr = loc.rpartition(".")
         obj = ex.spec_value(base, old)
         key, f = ex.field(obj.cls, attr)
         if allowed.get(key) != "*":
-            allowed.setdefault(key, []).append(obj.t)
+            allowed.setdefault(key, []).append((obj.t, cond))
     for key, (arr, na) in s.heap.items():
         a0, n0 = old.heap.get(key, (arr, na))
         if arr.eq(a0) and (na is None or na.eq(n0)):
@@ -180,7 +189,9 @@ def _frame_obs(ex, c, s, old, ln):
             same = z3.And(same, z3.Select(na, r) == z3.Select(n0, r))
             # the value under a None flag is irrelevant
             same = z3.Or(same, z3.And(z3.Select(na, r), z3.Select(n0, r)))
-        goal = z3.ForAll([r], z3.Implies(z3.And(*[r != t for t in al]) if al else z3.BoolVal(True), same))
+        goal = z3.ForAll([r], z3.Implies(z3.And(*[z3.Or(r != t, z3.Not(cnd)) for t, cnd in al]) if al else z3.BoolVal(True), same))
+        if star_conds.get(key):
+            goal = z3.Or(goal, *star_conds[key])
         _add(ex, "%s.frame[%s]%s" % (c.name, key, "@L%s" % ln if ln else "@end"), s.pc, goal, ln, "frame")
 
 
